@@ -414,6 +414,7 @@ func TestCheck(t *testing.T) {
 	defer run.Finish()
 	run.Assume("single corruptions only; re-signing uses the real validators' keys so that only the semantic check can reject")
 	run.Assume("mutations that yield another valid block (fresh nonce / primary / next consensus with a valid signature, reordering or dropping transactions with a rebuilt signed header) are not corruptions and are not offered")
+	agedConflicts(t, run)
 	nh := ev.Pick(2, 6)
 	nstates := ev.Pick(6, 14)
 	nb := ev.Pick(40, 70)
